@@ -1,59 +1,153 @@
 """C17 Reads never modify data; databases change only through the log.
-(A) ReadOnly.tla: one request (statement class x endpoint x consistency level x role of the
-    receiving node x linearizable-upgrade) followed through the code's steps -- HTTP handler,
-    classification of a unified request's statements, dispatch (local read | QUERY log entry |
-    EXECUTE_QUERY log entry), the connection that runs the text on each node (read-only pool /
-    read-write connection, the driver's query loop that steps only the last statement of a text
-    vs. its exec loop) -- recording which nodes' databases the text changes.  Invariants:
-    NoChangeByRead (no query-endpoint request and no statement treated as read-only changes any
-    node), OnlyThroughLog (a change is the application of a committed write entry on that node),
-    EveryNode (then on every node).  TLC exhaustive over 21 classes x 4 endpoints x 4 levels x
-    2 roles (+ upgrade); one negative control per mechanism (ROPool, ClassifyWholeText,
-    LocalReadsOnROPool, StrongQueryOnROPool).
-(B) every generated case is sent over HTTP (POST /db/query, GET /db/query?q=, POST /db/request
-    alone and together with a genuine write) to the leader or a follower of a live 3-node
-    cluster.  Before and after each request every node is observed: logical content per
-    component (schema, every table incl. sqlite_stat1, user_version, application_id),
-    PRAGMA data_version on a connection owned by the harness, fingerprints of the database file
-    and the WAL, attached/temp objects of the read-write connection, and the FSM applies of the
-    window (node, index, entry type, statements).  Judged by the property text only: a change
-    caused by a query-endpoint request or by a statement the unified request counts as read-only
-    (Store.RORWCount, which decides the route) or runs as a query (DB.Request's own classification on
-    the read-write connection), a change on a node without a write entry applied there, or a change that
-    is not the same on every node is a violation.  The thorough tier runs six concrete texts
-    per class (other heads, tails, separators, case, transaction flag, order of the genuine
-    write)."""
-import collections, concurrent.futures, json, os, random, vlib
+(A) ReadOnly.tla: one request = a SEQUENCE of statements, each of a statement class (one for the
+    query endpoints; 1..3 -- thorough 1..4 -- for a unified request, every order and repetition
+    of the classes plain read / plain write / read-only head with a writing tail / EXPLAIN of a
+    write / EXPLAIN with a writing tail / PRAGMA optimize / INSERT..RETURNING, with and without
+    the transaction flag) x endpoint x consistency level x role of the receiving node x
+    linearizable-upgrade, followed through the code's steps -- HTTP handler, classification of
+    every statement of a unified request, dispatch (local read | QUERY log entry | EXECUTE_QUERY
+    log entry), the connection that runs the statements one after the other on each node
+    (read-only pool / read-write connection; the driver's query loop that steps only the last
+    statement of a text vs. its exec loop; the write guard around a read-only-classified
+    statement; rollback of a transaction at the first error) -- recording which STATEMENT changes
+    which node's database.  Invariants: NoChangeByRead (no query-endpoint request and no
+    statement treated as read-only changes any node), OnlyThroughLog (a change is the application
+    of a committed write entry on that node), EveryNode (then on every node).  TLC exhaustive;
+    one negative control per mechanism (ROPool, ClassifyWholeText, GuardEveryROStmt -- the guard
+    is established for every read-only-classified statement whatever ran before it on the
+    connection --, LocalReadsOnROPool, StrongQueryOnROPool).
+(B) the generated cases are sent over HTTP (POST /db/query, GET /db/query?q=, POST /db/request)
+    to the leader or a follower of a live 3-node cluster: all query-endpoint and one- and
+    two-statement cases as before, and EVERY statement sequence of the spec at least once through
+    the log (and once without it when the store counts no write), the remaining dimensions
+    drawn by the seed.  Every effect a statement can have carries its case number and position.
+    Before and after each request every node is observed: logical content per component (schema,
+    every table incl. sqlite_stat1, user_version, application_id), PRAGMA data_version on a
+    connection owned by the harness, fingerprints of the database file and the WAL,
+    attached/temp objects of the read-write connection, and the FSM applies of the window (node,
+    index, entry type, statements).  Judged by the property text only: a change caused by a
+    query-endpoint request or by a statement the unified request counts as read-only
+    (Store.RORWCount, which decides the route) or runs as a query (DB.Request's own
+    classification on the read-write connection), a change on a node without a write entry
+    applied there, or a change that is not the same on every node is a violation.  Conformance
+    with the spec (route, per-statement classification, RO/RW counts, which statements answer
+    with an error, expected writes observed) is checked on every case.  The thorough tier runs
+    six concrete texts per class (other heads, tails, separators, case) and sequences of four."""
+import collections, concurrent.futures, json, os, random, re, vlib
 LEVEL = "model_checking"
-TECHNIQUE = "TLA+ request-path spec, TLC exhaustive + negative controls; every spec-generated case replayed over HTTP on a live 3-node cluster with per-node before/after observation and the FSM apply trace"
+TECHNIQUE = "TLA+ request-path spec over statement sequences, TLC exhaustive + negative controls; every spec-generated sequence replayed over HTTP on a live 3-node cluster with per-node before/after observation, per-statement attribution and the FSM apply trace"
 
-SWITCHES = (("ROPool", "NoChangeByRead"), ("ClassifyWholeText", "NoChangeByRead"),
+SWITCHES = (("ROPool", "NoChangeByRead"), ("ClassifyWholeText", "NoChangeByRead"), ("GuardEveryROStmt", "NoChangeByRead"),
             ("LocalReadsOnROPool", "EveryNode"), ("StrongQueryOnROPool", "OnlyThroughLog"))
 WRITE_ENTRIES = ("EXECUTE", "EXECUTE_QUERY")
+# classes whose errors the spec models (a refused write); for the others a transaction may be rolled back by an
+# error the spec does not know (ATTACH inside a transaction, load_extension): no expectation on writes there
+MODELLED = {"select", "write", "ro-head-rw-tail", "ro-head-ddl-tail", "ro-head-pragma-tail", "rw-head-ro-tail", "explain-write",
+            "explain-ro-head-rw-tail", "explain-rw-head-rw-tail", "insert-returning", "pragma-write", "pragma-read", "ddl", "with-insert"}
+
+
+def shape(c):
+    """(endpoint, class) under which the violation key names the request."""
+    ss = c["stmts"]
+    if c["ep"] != "req":
+        return c["ep"], ss[0]
+    if len(ss) == 1:
+        return "ralone", ss[0]
+    if len(ss) == 2 and ss.count("write") == 1:
+        return "rwrite", [x for x in ss if x != "write"][0]
+    return "rseq", "+".join(ss)
+
+
+def lines_delta(before, after):
+    b, a = before.splitlines(), after.splitlines()
+    return [l for l in a if l not in b], [l for l in b if l not in a]
+
+
+def attribute(n, stm):
+    """The changes of one node's database, each with the positions of the statements that can have made it:
+    [(component, detail, [positions])].  Whatever a statement can write carries its tag (case number and
+    position); a change that carries none is laid to every statement that is not a plain tagged INSERT."""
+    other = [s["pos"] for s in stm if s["class"] != "write"] or [s["pos"] for s in stm]
+    optimize = [s["pos"] for s in stm if s["class"].startswith("pragma-optimize")] or other
+    items = []
+    for d in n["diff"]:
+        comp = d["comp"]
+        if comp in ("table:w", "table:t"):
+            added, gone = lines_delta(d["before"], d["after"])
+            added_ids = {l.split("|")[0] for l in added}
+            for l in added:
+                who = [s["pos"] for s in stm if ('s:"%s%d"' % ("m" if comp == "table:w" else "c", s["tag"])) in l
+                       and (comp == "table:t" or s["class"] == "write")]
+                items.append((comp, "+" + l, who or other))
+            for l in gone:
+                rid = l.split("|")[0]
+                if rid in added_ids:
+                    continue      # the row was rewritten: explained by its new content
+                m = re.fullmatch(r"i:1([1-4])", rid)
+                who = [s["pos"] for s in stm if m and comp == "table:t" and s["pos"] == int(m.group(1))]
+                items.append((comp, "-" + l, who or other))
+        elif comp == "schema":
+            added, gone = lines_delta(d["before"], d["after"])
+            for l in added + gone:
+                if "sqlite_stat" in l:
+                    who = optimize
+                else:
+                    who = [s["pos"] for s in stm if re.search(r"[a-z]%d\b" % s["tag"], l)]
+                items.append((comp, l[:120], who or other))
+        elif comp.startswith("table:sqlite_stat"):
+            items.append((comp, "", optimize))
+        elif comp.startswith("table:"):
+            who = [s["pos"] for s in stm if re.search(r"[a-z]%d$" % s["tag"], comp)]
+            items.append((comp, "", who or other))
+        else:   # user_version, application_id
+            who = [s["pos"] for s in stm if d["after"] == str(s["tag"])]
+            items.append((comp, d["after"], who or other))
+    return items
 
 
 def judge(r):
-    """Returns (violations [(kind, what)], info dict) for one observed case; property text only."""
+    """Returns (violations [(kind, position or None, what)], info dict) for one observed case; property text only."""
     c = r["c"]
+    stm = r["stmts"]
     viol = []
-    marker = "s:\"m%d\"" % c["id"]
-    text_changed = []     # nodes where something other than the genuine write's row changed
+    is_query = c["ep"] in ("qpost", "qget")
+    # a unified request classifies every statement twice: Store.RORWCount decides the route, DB.Request (on the
+    # read-write connection of every node) decides whether the text is run as a query or as an execute
+    ro_by = {}
+    for s in stm:
+        store_ro = (not is_query) and s["store_nro"] == 1
+        db_ro = (not is_query) and bool(s.get("db_ro"))
+        ro_by[s["pos"]] = "+".join(x for x, f in (("store", store_ro), ("db", db_ro)) if f)
     any_changed = []      # nodes where anything changed logically
     phys_changed = []     # nodes whose file changed (data_version / WAL / db file)
-    per_node = {}
+    by_pos = collections.defaultdict(lambda: collections.defaultdict(set))    # position -> component -> nodes (sure attribution)
+    blamed = {}           # position of a read-only-treated statement -> (components, nodes)
+    ambiguous = 0
+    # the result a statement got: texts that are empty get none, and a transaction ends at its first error
+    res = r.get("res_errors")
+    res_idx, k = {}, 0
+    for s in stm:
+        if s["text"] != "":
+            res_idx[s["pos"]] = k
+            k += 1
+
+    def answered(p):
+        return res is not None and p in res_idx and res_idx[p] < len(res) and not res[res_idx[p]]
     for n in r["nodes"]:
-        comps = []
-        for d in n["diff"]:
-            if d["comp"] == "table:w" and c["ep"] == "rwrite":
-                # the genuine write: exactly one new row carrying this case's marker
-                added = [l for l in n["w_after"].splitlines() if l not in n["w_before"].splitlines()]
-                gone = [l for l in n["w_before"].splitlines() if l not in n["w_after"].splitlines()]
-                if len(added) == 1 and not gone and marker in added[0]:
-                    continue
-            comps.append(d["comp"])
-        per_node[n["id"]] = comps
-        if comps:
-            text_changed.append(n["id"])
+        for comp, detail, who in attribute(n, stm):
+            # several read-only-treated statements can have made it (two PRAGMA optimize): those that ran through
+            # the query loop and were answered with rows, not with an error
+            if len(who) > 1 and all(ro_by[p] for p in who) and any(answered(p) for p in who):
+                who = [p for p in who if answered(p)]
+            if len(who) == 1:
+                by_pos[who[0]][comp].add(n["id"])
+            else:
+                ambiguous += 1
+            # laid to a read-only-treated statement only if every statement that can have made it is one
+            if all(ro_by[p] for p in who):
+                b = blamed.setdefault(who[0], (set(), set()))
+                b[0].add(comp)
+                b[1].add(n["id"])
         if n["diff"]:
             any_changed.append(n["id"])
         if n["dv"] or n["wal"] or n["dbf"]:
@@ -64,88 +158,164 @@ def judge(r):
         if e["type"] in WRITE_ENTRIES:
             wr_idx[e["node"]].add(e["idx"])
     all_nodes = [n["id"] for n in r["nodes"]]
-    is_query = c["ep"] in ("qpost", "qget")
-    # a unified request classifies twice: Store.RORWCount decides the route, DB.Request (on the read-write
-    # connection of every node) decides whether the text is run as a query or as an execute
-    store_ro = (not is_query) and r["store_nro"] == 1
-    db_ro = (not is_query) and bool(r.get("db_ro"))
-    by = "+".join(x for x, f in (("store", store_ro), ("db", db_ro)) if f)
-    comps_all = sorted({x for v in per_node.values() for x in v})
+    comps_all = sorted({d["comp"] for n in r["nodes"] for d in n["diff"]})
     # sentence 1: no query-endpoint request, no statement treated as read-only, changes any node
     if is_query and (any_changed or phys_changed):
         kind = "query-changed" if any_changed else "query-changed-file-only"
-        viol.append((kind, "a query-endpoint request changed the database of %s (%s)" % (any_changed or phys_changed, comps_all or "file only")))
-    if by and text_changed:
-        viol.append(("treated-ro-changed:by=" + by, "a statement the unified request treats as read-only (%s classification) changed %s on %s" % (by, comps_all, text_changed)))
-    if store_ro and c["ep"] == "ralone" and phys_changed and not text_changed:
-        viol.append(("treated-ro-changed-file-only:by=" + by, "a unified request of one read-only statement rewrote the database file of %s" % phys_changed))
+        viol.append((kind, None, "a query-endpoint request changed the database of %s (%s)" % (any_changed or phys_changed, comps_all or "file only")))
+    for p in sorted(blamed):
+        comps, nodes = blamed[p]
+        viol.append(("treated-ro-changed:by=" + ro_by[p], p, "statement %d (%s: %r), which the unified request treats as read-only (%s classification), changed %s on %s"
+                     % (p, stm[p - 1]["class"], stm[p - 1]["text"], ro_by[p], sorted(comps), sorted(nodes))))
+    if not is_query and all(s["store_nro"] == 1 for s in stm) and phys_changed and not any_changed:
+        viol.append(("treated-ro-changed-file-only:by=" + ro_by[1], 1, "a unified request of read-only statements only rewrote the database file of %s" % phys_changed))
     # sentence 2: a node's database changes only by applying a committed (write) log entry ...
     nolog = [n for n in set(any_changed + phys_changed) if not wr_idx[n]]
     if nolog:
-        viol.append(("changed-without-log", "the database of %s changed but no write entry was applied there in the window" % sorted(nolog)))
+        viol.append(("changed-without-log", None, "the database of %s changed but no write entry was applied there in the window" % sorted(nolog)))
     # ... which every node applies: a change on some nodes only did not come from the log
     partial = {}
-    for comp in sorted({d["comp"] for n in r["nodes"] for d in n["diff"]}):
+    for comp in comps_all:
         on = [n["id"] for n in r["nodes"] if any(d["comp"] == comp for d in n["diff"])]
         if set(on) != set(all_nodes):
             partial[comp] = on
     if phys_changed and set(phys_changed) != set(all_nodes):
         partial["file"] = phys_changed
     if partial:
-        viol.append(("changed-on-some-nodes", "changed on some of %s only: %s" % (all_nodes, partial)))
+        viol.append(("changed-on-some-nodes", None, "changed on some of %s only: %s" % (all_nodes, partial)))
     # (all nodes applied the same write entry but ended up different: replica divergence, C01's subject, reported as an observation)
     sigs = {json.dumps(n["diff"], sort_keys=True) for n in r["nodes"]}
     diverged = len(sigs) > 1 or not r["equal_after"]
     idxs = {n: frozenset(wr_idx[n]) for n in all_nodes}
     if len(set(idxs.values())) > 1:
-        viol.append(("log-applied-on-some-nodes", "write entries applied per node differ: %s" % {k: sorted(v) for k, v in idxs.items()}))
+        viol.append(("log-applied-on-some-nodes", None, "write entries applied per node differ: %s" % {k: sorted(v) for k, v in idxs.items()}))
     entry = "none"
     types = {e["type"] for e in applies}
     for t in ("EXECUTE_QUERY", "EXECUTE", "QUERY"):
         if t in types:
             entry = t
             break
-    info = {"text_changed": bool(text_changed), "entry": entry, "store_ro": store_ro, "db_ro": db_ro, "comps": comps_all,
-            "diverged": diverged and not any(k == "changed-on-some-nodes" for k, _ in viol),
+    changed_pos = sorted(p for p in by_pos if by_pos[p])
+    info = {"changed_pos": changed_pos, "text_changed": any(stm[p - 1]["class"] != "write" for p in changed_pos) or ambiguous > 0,
+            "entry": entry, "ro_by": ro_by, "comps": comps_all, "ambiguous": ambiguous,
+            "diverged": diverged and not any(k == "changed-on-some-nodes" for k, _, _ in viol),
             "conn_changed": any(n["conn_before"] != n["conn_after"] for n in r["nodes"])}
     return viol, info
 
 
-def key_of(kind, c):
-    k = "readonly:%s:class=%s:endpoint=%s:level=%s:role=%s" % (kind, c["class"], c["ep"], c["level"], c["role"])
+def key_of(kind, pos, r):
+    """Stable across seeds and tiers: the dimensions drawn by the seed (level, role, transaction flag of a sequence)
+    are not part of it; a statement-level violation of a sequence names the statement's class and what ran before it."""
+    c = r["c"]
+    ep, cls = shape(c)
+    if ep == "rseq":
+        if pos is not None:
+            ro_by = {s["pos"]: (s["store_nro"] == 1 or bool(s.get("db_ro"))) for s in r["stmts"]}
+            hist = ".".join("ro" if ro_by[p] else "rw" for p in range(1, pos)) or "nothing"
+            return "readonly:%s:class=%s:endpoint=rseq:after=%s" % (kind, c["stmts"][pos - 1], hist)
+        return "readonly:%s:class=%s:endpoint=rseq" % (kind, cls)
+    k = "readonly:%s:class=%s:endpoint=%s:level=%s:role=%s" % (kind, cls, ep, c["level"], c["role"])
     if c["up"]:
         k += ":upgraded"
     return k
 
 
-def run(ctx):
-    gen, _ = vlib.tlc_cases(ctx, "ReadOnly", "ReadOnly_gen.cfg")
-    if len(gen) < 840:
-        raise vlib.Undecided("generator produced %d cases" % len(gen))
-    gen.sort(key=lambda c: (c["class"], c["ep"], c["level"], c["role"], c["up"]))
+def select_cases(ctx, gens):
+    """The cases to replay.  Query-endpoint, one-statement and statement+write requests: every (class, endpoint,
+    level, role, upgrade), the transaction flag and the place of the write by the text variant as before.  Longer
+    sequences: EVERY sequence the spec generates, once through the log and -- when the store counts no write in it --
+    once without, level / role / upgrade / transaction flag drawn by the seed."""
     rnd = random.Random(ctx.seed)
+    seen = set()
+    base = collections.defaultdict(list)     # (ep-shape, class, level, role, up) -> cases (tx, order)
+    seqs = collections.defaultdict(list)     # statement sequence -> cases
+    ngen = 0
+    for gen in gens:
+        for c in gen:
+            k = (c["ep"], tuple(c["stmts"]), c["tx"], c["level"], c["role"], c["up"])
+            if k in seen:
+                continue
+            seen.add(k)
+            ngen += 1
+            ep, cls = shape(c)
+            if ep == "rseq":
+                seqs[tuple(c["stmts"])].append(c)
+            else:
+                base[(ep, cls, c["level"], c["role"], c["up"])].append(c)
     cases = []
     nvar = ctx.pick(1, 6)
     for v in range(nvar):
-        for c in gen:
-            d = dict(c)
+        for k in sorted(base):
             # quick: the canonical text of every class, plus one seeded other text for every third case
-            d["variant"] = v if ctx.thorough else (0 if rnd.random() < 0.67 else rnd.randrange(1, 6))
+            variant = v if ctx.thorough else (0 if rnd.random() < 0.67 else rnd.randrange(1, 6))
+            tx = variant % 3 == 2 and k[0] in ("ralone", "rwrite")
+            cand = [c for c in base[k] if c["tx"] == tx and (k[0] != "rwrite" or (c["stmts"][0] == "write") == (variant >= 3))]
+            if len(cand) != 1:
+                raise vlib.Undecided("generator: %d cases for %s variant %d" % (len(cand), k, variant))
+            d = dict(cand[0])
+            d["variant"] = variant
             cases.append(d)
+    nbase = len(cases)
+    per_seq = collections.Counter()
+    for ss in sorted(seqs):
+        cs = sorted(seqs[ss], key=lambda c: (c["level"], c["role"], c["up"], c["tx"]))
+        logged = [c for c in cs if c["entry"] == "EXECUTE_QUERY"]
+        local = [c for c in cs if c["entry"] == "none"]
+        picks = [rnd.choice(logged)]
+        if local:
+            picks.append(rnd.choice(local))
+        elif ctx.thorough and len(ss) <= 3:
+            # a second one through the log, with the other value of the transaction flag
+            picks.append(rnd.choice([c for c in logged if c["tx"] != picks[0]["tx"]]))
+        for c in picks:
+            d = dict(c)
+            d["variant"] = 0 if rnd.random() < 0.67 else rnd.randrange(1, 6)
+            cases.append(d)
+        per_seq[len(ss)] += 1
     rnd.shuffle(cases)           # the order decides which pooled connection / which leftovers a case meets
     for i, d in enumerate(cases):
         d["id"] = i + 1
+    return cases, {"generated": ngen, "base_cases": nbase, "sequences_by_length": {str(k): v for k, v in sorted(per_seq.items())},
+                   "sequence_cases": len(cases) - nbase, "texts_per_class": nvar}
+
+
+def run(ctx):
+    gens = []
+    with concurrent.futures.ThreadPoolExecutor(max_workers=3) as ex:
+        hb = ex.submit(ctx.harness)      # the harness is built while the spec generates the cases
+        gf = [ex.submit(vlib.tlc_cases, ctx, "ReadOnly", cfg, timeout=3600)
+              for cfg in ctx.pick(("ReadOnly_gen.cfg",), ("ReadOnly_gen_len4.cfg", "ReadOnly_gen_wide.cfg"))]
+        for f in gf:
+            gens.append(f.result()[0])
+        hb.result()
+    if sum(len(g) for g in gens) < 9000:
+        raise vlib.Undecided("generator produced %d cases" % sum(len(g) for g in gens))
+    cases, sel = select_cases(ctx, gens)
+    # every order of every three distinct classes of the sequence alphabet must be among the cases
+    alpha = sorted({x for c in cases if shape(c)[0] == "rseq" for x in c["stmts"]})
+    have = {tuple(c["stmts"]) for c in cases}
+    missing = [(a, b, d) for a in alpha for b in alpha for d in alpha if len({a, b, d}) == 3 and (a, b, d) not in have]
+    if len(alpha) < 7 or missing:
+        raise vlib.Undecided("sequence cases incomplete: alphabet %s, %d orders missing" % (alpha, len(missing)))
     inp = os.path.join(ctx.scratch, "ro.ndjson")
     outp = os.path.join(ctx.scratch, "ro.out.ndjson")
     vlib.write_nd(inp, cases)
     ctx.harness()
     # the design (exhaustive) and its negative controls are checked while the cluster replays the cases
     with concurrent.futures.ThreadPoolExecutor(max_workers=2) as ex:
-        futs = [ex.submit(vlib.tlc_mc, ctx, "ReadOnly", "ReadOnly_mc.cfg", workers=1)]
+        futs = [ex.submit(vlib.tlc_mc, ctx, "ReadOnly", cfg, workers=ctx.pick(1, 4), timeout=3600)
+                for cfg in ctx.pick(("ReadOnly_mc.cfg",), ("ReadOnly_mc_len4.cfg", "ReadOnly_mc_wide.cfg"))]
         futs += [ex.submit(vlib.tlc_neg, ctx, "ReadOnly", "ReadOnly_neg_%s.cfg" % sw, expect=inv, workers=1) for sw, inv in SWITCHES]
-        p = ctx.run_harness(["readonly-replay", "-in", inp, "-out", outp, "-dir", ctx.sub("ro")], timeout=ctx.pick(1500, 5400))
+        p = ctx.run_harness(["readonly-replay", "-in", inp, "-out", outp, "-dir", ctx.sub("ro")], timeout=ctx.pick(1800, 7200))
+        negs = {}
         for f in futs:
-            f.result()
+            x = f.result()
+            negs[x["cfg"]] = x
+    # the counterexample of the guard control is the history-dependent one: at least three statements
+    m = re.search(r"stmts \|-> <<([^>]*)>>", negs["ReadOnly_neg_GuardEveryROStmt.cfg"]["out"])
+    if not m or len(m.group(1).split(",")) < 3:
+        raise vlib.Undecided("negative control GuardEveryROStmt: unexpected counterexample %s" % (m.group(0) if m else None))
+    ctx.cov["guard_control_counterexample"] = [x.strip().strip('"') for x in m.group(1).split(",")]
     st = json.loads(p.stdout.strip().splitlines()[-1])
     ctx.cov["driver"] = st
     rows = vlib.read_nd(outp)
@@ -156,49 +326,84 @@ def run(ctx):
     stats = collections.Counter()
     route_mismatch = []
     class_mismatch = []
+    resp_mismatch = []
     diverged_obs = []
     must_missing = []
     changed_cases = 0
+    seq_done = collections.Counter()
     conn_obs = collections.Counter()
     for r in done:
         c = r["c"]
+        ep, cls = shape(c)
         viol, info = judge(r)
         stats["status%d" % r["status"]] += 1
         if r.get("route_retries"):
             stats["repeated_because_route_not_as_planned"] += r["route_retries"]
         stats["entry_" + info["entry"]] += 1
+        if ep == "rseq":
+            seq_done[tuple(c["stmts"])] += 1
+            stats["sequence_%s%s" % ("through_log" if info["entry"] == "EXECUTE_QUERY" else "local", "_tx" if c["tx"] else "")] += 1
         if info["text_changed"]:
             changed_cases += 1
+        if info["ambiguous"]:
+            stats["changes_without_a_single_author"] += info["ambiguous"]
         if info["diverged"]:
-            diverged_obs.append({"case": {k: c[k] for k in ("class", "ep", "level", "role")}, "text": r["text"],
-                                 "after": {n["id"]: [d["after"] for d in n["diff"]] for n in r["nodes"]}})
-        if c["class"] == "attach" and ("a%d" % (c["id"] + 1000)) in r.get("pool_dblist", "").split(","):
-            conn_obs["pool-connection-keeps-attached-db:endpoint=%s" % c["ep"]] += 1
-        if c["class"] == "attach" and r.get("attach_files"):
-            conn_obs["attach-created-a-file:endpoint=%s" % c["ep"]] += 1
+            diverged_obs.append({"case": {k: c[k] for k in ("stmts", "ep", "level", "role")}, "text": r["text"],
+                                 "after": {n["id"]: [d["after"][:300] for d in n["diff"]] for n in r["nodes"]}})
+        for s in r["stmts"]:
+            if s["class"] == "attach" and ("a%d" % s["tag"]) in r.get("pool_dblist", "").split(","):
+                conn_obs["pool-connection-keeps-attached-db:endpoint=%s" % ep] += 1
+        if "attach" in c["stmts"] and r.get("attach_files"):
+            conn_obs["attach-created-a-file:endpoint=%s" % ep] += 1
         if info["conn_changed"]:
-            conn_obs["rwconn-state-changed:class=%s:endpoint=%s" % (c["class"], c["ep"])] += 1
-        for kind, what in viol:
-            ctx.violation(key_of(kind, c), "%s %s level=%s to the %s: %r -- %s" % (c["ep"], c["class"], c["level"], c["role"], r["text"], what),
-                          {"case": c, "request": r["sent"], "status": r["status"], "response": r["body"], "store_nro": r["store_nro"], "store_nrw": r["store_nrw"], "db_ro": r.get("db_ro"),
+            conn_obs["rwconn-state-changed:class=%s:endpoint=%s" % (cls, ep)] += 1
+        for kind, pos, what in viol:
+            ctx.violation(key_of(kind, pos, r), "%s %s%s level=%s to the %s: %r -- %s" % (c["ep"], "+".join(c["stmts"]), " in a transaction" if c["tx"] else "", c["level"], c["role"], r["text"], what),
+                          {"case": c, "request": r["sent"], "status": r["status"], "response": r["body"], "store_nro": r["store_nro"], "store_nrw": r["store_nrw"],
+                           "statements": r["stmts"],
                            "nodes": [{k: n[k] for k in ("id", "role", "target", "diff", "dv", "wal", "dbf")} for n in r["nodes"]], "events": r["events"]})
-        # conformance of the code's route with the design (not a verdict on the property)
-        if c["level"] == "linearizable" and r["status"] == 200 and r["upgraded"] != c["up"] and not (c["role"] == "follower" and c["ep"] in ("ralone", "rwrite")):
+        # ---- conformance of the code with the design (not a verdict on the property)
+        per = c["per"]
+        is_req = c["ep"] == "req"
+        tolerated = any(s["class"].startswith("pragma-optimize") or s["text"].strip() == "" for s in r["stmts"])
+        classified_as_spec = True
+        if is_req:
+            for s, e in zip(r["stmts"], per):
+                got = (s["store_nro"] == 1, bool(s["db_ro"]) or s["explain_flag"])
+                if got != (e["store_ro"], e["db_ro"]):
+                    classified_as_spec = False
+                    # PRAGMA optimize: SQLite's verdict depends on how many tables the connection thinks need analysis
+                    if s["class"].startswith("pragma-optimize") or s["text"].strip() == "":
+                        stats["classified_unlike_spec_tolerated"] += 1
+                    else:
+                        class_mismatch.append({"case": c["stmts"], "pos": s["pos"], "text": s["text"], "store_ro": got[0], "db_ro": s["db_ro"], "explain": s["explain_flag"]})
+            if (r["store_nrw"], r["store_nro"]) != (c["nrw"], c["nro"]):
+                classified_as_spec = False
+                if not tolerated:
+                    class_mismatch.append({"case": c["stmts"], "text": r["text"], "counted_rw_ro": (r["store_nrw"], r["store_nro"]), "spec": (c["nrw"], c["nro"])})
+        if c["level"] == "linearizable" and r["status"] == 200 and r["upgraded"] != c["up"] and not (c["role"] == "follower" and is_req):
             stats["upgrade_not_as_planned"] += 1
-        elif r["status"] == 200 and info["store_ro"] == c["store_ro"] and info["entry"] != c["entry"]:
+        elif r["status"] == 200 and classified_as_spec and info["entry"] != c["entry"]:
             route_mismatch.append({"case": c, "observed_entry": info["entry"], "text": r["text"]})
-        if c["must_change"] and r["status"] == 200 and not info["text_changed"]:
-            must_missing.append({"case": c, "text": r["text"], "body": r["body"]})
-        if c["ep"] in ("ralone", "rwrite") and (info["store_ro"], info["db_ro"] or r["explain_flag"]) != (c["store_ro"], c["db_ro"]):
-            # PRAGMA optimize: SQLite's verdict depends on how many tables the connection thinks need analysis
-            if c["class"].startswith("pragma-optimize") or r["text"].strip() == "":
-                stats["classified_unlike_spec_tolerated"] += 1
+        if is_req and r["status"] == 200 and classified_as_spec and (not c["tx"] or all(x in MODELLED for x in c["stmts"])):
+            for e, s in zip(per, r["stmts"]):
+                # (a later statement of the request that sets the same header field hides what this one wrote)
+                field = re.search(r"(?i)user_version|application_id", s["text"])
+                hidden = field and any(field.group(0).lower() in x["text"].lower() for x in r["stmts"] if x["pos"] > s["pos"])
+                if e["must_change"] and s["pos"] not in info["changed_pos"] and not hidden:
+                    must_missing.append({"case": c["stmts"], "tx": c["tx"], "pos": s["pos"], "text": r["text"], "body": r["body"]})
+        # which statements answer with an error: the refused writes of the design, and in a transaction nothing after the first
+        if is_req and r["status"] == 200 and classified_as_spec and all(x in MODELLED for x in c["stmts"]):
+            want = [e["fails"] for e in per if e["runs"]]
+            got = r.get("res_errors")
+            if got != want:
+                resp_mismatch.append({"case": c["stmts"], "tx": c["tx"], "entry": c["entry"], "text": r["text"], "errors_expected": want, "body": r["body"]})
             else:
-                class_mismatch.append({"case": c, "text": r["text"], "store_ro": info["store_ro"], "db_ro": info["db_ro"], "explain": r["explain_flag"]})
+                stats["responses_as_designed"] += 1
     # spec/code conformance problems make the run undecided -- unless the real code violated the property in
     # this run: a misbehaving classifier or route is then the violation's cause, and the violation is the verdict
     ctx.cov["conformance"] = {"route_mismatches": len(route_mismatch), "classification_mismatches": len(class_mismatch),
-                              "expected_writes_not_observed": len(must_missing)}
+                              "expected_writes_not_observed": len(must_missing), "responses_unlike_design": len(resp_mismatch)}
     if not [v for v in ctx.violations if not vlib.match_known(ctx.pid, v[0])]:
         if route_mismatch:
             raise vlib.Undecided("the code's dispatch differs from ReadOnly.tla in %d cases, e.g. %s" % (len(route_mismatch), route_mismatch[:3]))
@@ -206,39 +411,70 @@ def run(ctx):
             raise vlib.Undecided("the code classifies %d texts unlike ReadOnly.tla's class attributes, e.g. %s" % (len(class_mismatch), class_mismatch[:3]))
         if must_missing:
             raise vlib.Undecided("writes through the unified endpoint were not observed (harness blind?): %s" % must_missing[:3])
+        if resp_mismatch:
+            raise vlib.Undecided("statements answered with / without an error unlike ReadOnly.tla in %d cases, e.g. %s" % (len(resp_mismatch), resp_mismatch[:3]))
+    short = [ss for ss in have if len(ss) >= 2 and shape({"ep": "req", "stmts": list(ss)})[0] == "rseq" and not seq_done[ss]]
+    if len(short) > 0.03 * len(seq_done) + 1:
+        raise vlib.Undecided("%d statement sequences were not replayed, e.g. %s" % (len(short), short[:3]))
 
-    # binding self-test of the judge: a fabricated change on one node of a real read-only observation must be caught
-    caught = 0
-    for r in done[:200]:
+    # binding self-test of the judge: (1) a fabricated change on one node of a real read-only observation must be caught;
+    # (2) the tagged effect of a read-only-treated statement, fabricated on every node of a clean sequence observation,
+    # must be laid to that statement
+    caught = caught_seq = 0
+    for r in done:
         if judge(r)[0]:
             continue
-        fake = json.loads(json.dumps(r))
-        fake["nodes"][1]["diff"] = fake["nodes"][1]["diff"] + [{"comp": "table:zz", "before": "", "after": "x"}]
-        fake["nodes"][1]["dv"] = True
-        kinds = {k for k, _ in judge(fake)[0]}
-        if not ({"changed-on-some-nodes"} <= kinds):
-            raise vlib.Undecided("judge self-test: a change on one node only was not caught (%s)" % kinds)
-        caught += 1
-    if caught == 0:
-        raise vlib.Undecided("judge self-test did not run")
-    ctx.cov["binding_selftests"] = [{"fabricated_single_node_change_caught": caught}]
+        if caught < 200:
+            fake = json.loads(json.dumps(r))
+            fake["nodes"][1]["diff"] = fake["nodes"][1]["diff"] + [{"comp": "table:zz", "before": "", "after": "x"}]
+            fake["nodes"][1]["dv"] = True
+            kinds = {k for k, _, _ in judge(fake)[0]}
+            if not ({"changed-on-some-nodes"} <= kinds):
+                raise vlib.Undecided("judge self-test: a change on one node only was not caught (%s)" % kinds)
+            caught += 1
+        ro = [s for s in r["stmts"] if s["store_nro"] == 1 and s["pos"] > 1]
+        rw = [s for s in r["stmts"] if s["store_nro"] == 0]
+        if caught_seq < 200 and shape(r["c"])[0] == "rseq" and ro and rw and r["c"]["entry"] == "EXECUTE_QUERY":
+            fake = json.loads(json.dumps(r))
+            s = ro[-1]
+            for n in fake["nodes"]:
+                line = 'i:99|s:"c%d"\n' % s["tag"]
+                d = next((d for d in n["diff"] if d["comp"] == "table:t"), None)
+                if d is None:
+                    n["diff"].append({"comp": "table:t", "before": "", "after": line})
+                else:
+                    d["after"] += line
+            got = [(k, pos) for k, pos, _ in judge(fake)[0]]
+            if not any(k.startswith("treated-ro-changed") and pos == s["pos"] for k, pos in got):
+                raise vlib.Undecided("judge self-test: the fabricated write of read-only-treated statement %d of %s was not laid to it (%s)" % (s["pos"], r["c"]["stmts"], got))
+            caught_seq += 1
+    if caught == 0 or caught_seq == 0:
+        raise vlib.Undecided("judge self-test did not run (%d, %d)" % (caught, caught_seq))
+    ctx.cov["binding_selftests"] = [{"fabricated_single_node_change_caught": caught, "fabricated_write_of_a_read_only_statement_in_a_sequence_attributed": caught_seq}]
 
     ctx.add("traces_validated_against_impl", len(done))
     ctx.add("evaluations", len(done))
     ctx.add("distinct_nontrivial", changed_cases)
-    ctx.cov["cases"] = {"generated": len(gen), "run": len(done), "skipped": len(rows) - len(done), "texts_per_class": nvar,
-                        "text_changed_a_database": changed_cases}
+    sel.update({"run": len(done), "skipped": len(rows) - len(done), "text_changed_a_database": changed_cases,
+                "sequence_alphabet": alpha, "sequences_replayed": len(seq_done)})
+    ctx.cov["cases"] = sel
     ctx.cov["outcomes"] = dict(stats)
     ctx.cov["connection_state_observations"] = dict(conn_obs)
     ctx.cov["diverged_through_the_log"] = {"cases": len(diverged_obs), "examples": diverged_obs[:2]}
-    ctx.cov["rule"] = "every (class, endpoint, level, role, upgrade) of ReadOnly.tla; non-trivial = the text changed some node's database"
+    ctx.cov["rule"] = ("every (class, endpoint, level, role, upgrade) of ReadOnly.tla for one statement and statement + write; every statement "
+                       "sequence of ReadOnly.tla (all orders and repetitions of the sequence alphabet up to the tier's length) at least once "
+                       "through the log and once without it where the store counts no write, the other dimensions drawn by the seed; "
+                       "non-trivial = a statement other than the plain write changed some node's database")
     ctx.cov["exhaustive"] = True
-    for r in done[:400]:
-        if r["c"]["class"] in ("ro-head-rw-tail", "ddl", "pragma-optimize") and len(ctx.cov["samples"]) < 5:
-            ctx.sample({"case": {k: r["c"][k] for k in ("class", "ep", "level", "role", "up", "entry", "may_change")}, "text": r["text"], "status": r["status"],
-                        "response": r["body"][:200], "changed": {n["id"]: [d["comp"] for d in n["diff"]] for n in r["nodes"]},
+    for r in done[:600]:
+        if len(r["c"]["stmts"]) >= 3 and "write" in r["c"]["stmts"][1:] and len(ctx.cov["samples"]) < 5:
+            ctx.sample({"case": {k: r["c"][k] for k in ("stmts", "tx", "ep", "level", "role", "up", "entry")}, "text": r["text"], "status": r["status"],
+                        "response": r["body"][:300], "changed": {n["id"]: [d["comp"] for d in n["diff"]] for n in r["nodes"]},
                         "applies": [(e["node"], e["idx"], e["type"]) for e in r["events"] if e["ev"] == "apply"]})
     ctx.assumptions += ["one request at a time on a fault-free cluster; a case during which leadership moved is repeated",
                         "a linearizable read is made to be upgraded (or not) by resetting (or establishing) the leader's strong-read term before the request",
                         "attached databases and TEMP objects are connection state, not the node's database: observed and reported, not judged",
-                        "PRAGMAs blocked by the request guard (C15) are not generated"]
+                        "PRAGMAs blocked by the request guard (C15) are not generated",
+                        "a change is laid to a statement by the tag its effects carry (case number and position in names, values, row ids); "
+                        "a change without a tag is laid to a read-only-treated statement only when every statement of the request that can have made it is one"]
+
